@@ -689,6 +689,16 @@ func (f *STFS) removeWithoutLocking(name string) error {
 		}
 	}
 
+	// The root can't be removed
+	root, rootErr := f.metadata.Metadata.GetRootPath(context.Background())
+	if rootErr != nil && rootErr != config.ErrNoRootDirectory {
+		return rootErr
+	}
+
+	if rootErr == nil && hdr.Name == root {
+		return os.ErrInvalid
+	}
+
 	if hdr.Typeflag == tar.TypeDir && hdr.Linkname == "" {
 		hdrs, err := inventory.List(
 			f.metadata,
@@ -723,6 +733,34 @@ func (f *STFS) RemoveAll(path string) error {
 
 	f.ioLock.Lock()
 	defer f.ioLock.Unlock()
+
+	// The root itself stays: removing it recursively removes everything below it
+	root, rootErr := f.metadata.Metadata.GetRootPath(context.Background())
+	if rootErr != nil && rootErr != config.ErrNoRootDirectory {
+		return rootErr
+	}
+
+	if rootErr == nil && (path == root || pathext.IsRoot(path, false)) {
+		children, err := inventory.List(
+			f.metadata,
+
+			path,
+			-1,
+
+			f.onHeader,
+		)
+		if err != nil {
+			return err
+		}
+
+		for _, child := range children {
+			if err := f.writeOps.Delete(child.Name); err != nil && !errors.Is(err, sql.ErrNoRows) {
+				return err
+			}
+		}
+
+		return nil
+	}
 
 	err := f.writeOps.Delete(path)
 	if errors.Is(err, sql.ErrNoRows) {
